@@ -342,8 +342,10 @@ def client_stage(ctx: vlib.Ctx, exe: str | None) -> None:
             for _ in range(ctx.n(30, 300)):
                 cuts = sorted(rng.sample(range(1, n), rng.randint(2, 6)))
                 cases.append((rs, [stream[a:b] for a, b in zip([0] + cuts, cuts + [n])] + ([b""] if rng.random() < 0.3 else []), True))
-            for k in sorted({0, 1, 3, 4, 5, n // 2, n - 1}):
-                cases.append((rs, [stream[:k]], False))     # peer dies in the middle of its reply
+            for k in range(n):
+                cases.append((rs, [stream[:k]], False))     # peer dies in the middle of its reply: at EVERY position
+            for k in sorted({1, 5, n // 2, n - 1}):
+                cases.append((rs, [stream[:k][i:i + 1] for i in range(k)], False))   # ... delivered byte by byte
         lines, bad = [], 0
         for rs, chunks, complete in cases:
             if bad >= 3:
@@ -365,7 +367,7 @@ def client_stage(ctx: vlib.Ctx, exe: str | None) -> None:
                               f"dmypy client request(): reply stream cut as {[len(c) for c in chunks][:20]} gave {str(resp)[:150]!r} "
                               f"stdout {out.getvalue()[:60]!r}, sent {str(want)[:150]!r}",
                               {"kind": "client", "chunks": [c.hex() for c in chunks], "resp": str(resp)})
-            lines.append(f"f {len(rs)} " + " ".join(hx(c) for c in chunks))
+            lines.append("c " + " ".join(hx(c) for c in chunks))
         q.put(None)
         th.join(timeout=10)
         ls.close()
